@@ -153,8 +153,9 @@ class Rom2:
             if hm(mac, chunk) != tab[32 * i : 32 * i + 32]:
                 raise RomReject("section", f"HMAC table entry {i}")
             p += len(chunk)
-        cmds = parse_commands(ctr_crypt(dek, nonce, body, body_off))
-        return {"uid": uid, "flags": flags, "hmac_count": nmac, "blocks": blocks, "commands": cmds, "offset": off}, body_off + 16 * blocks
+        plain = ctr_crypt(dek, nonce, body, body_off)
+        cmds = parse_commands(plain)
+        return {"uid": uid, "flags": flags, "hmac_count": nmac, "blocks": blocks, "commands": cmds, "offset": off, "body_offset": body_off, "plain": plain}, body_off + 16 * blocks
 
     def cert_block(self, cb: bytes):
         if len(cb) < 32:
